@@ -83,10 +83,17 @@ def make_case(r, g, classes):
 
 def listing(mm):
   pairs = []
+  handed_out = []
   for n in mm.treatment_group_size_range():
     for T in mm.treatment_group_generator(n):
-      for C in mm.control_group_generator(set(T)):
-        pairs.append((frozenset(T), frozenset(C)))
+      Tc = set(T)
+      handed_out.append(T)
+      for C in mm.control_group_generator(set(Tc)):
+        pairs.append((frozenset(Tc), frozenset(C)))
+        handed_out.append(C)
+  # once the enumeration is over, a caller may do what it likes with the sets it was handed
+  for s_ in handed_out:
+    s_.clear()
   return pairs
 
 
@@ -155,6 +162,11 @@ def check_setting(case, truth, tr, cr, tol, do_listing, counters, violations, fp
         violations.append({'clause': 'listing-vs-oracle', 'mech': 'listing-mismatch',
                            'detail': '%s: generators list %d distinct pairs, oracle %d; extra %s missing %s' % (
                                label, len(ids), len(wantset), extra, missing)})
+      again = util.call(mm.count_max_designs)
+      if again.ok and int(again.value) != int(cnt.value):
+        violations.append({'clause': 'count-after-listing', 'mech': 'count-changes-after-listing',
+                           'detail': '%s: count_max_designs()=%r before and %r after the groups were listed (and the yielded sets cleared by the caller)' % (
+                               label, cnt.value, again.value)})
       if len(set(L)) != int(cnt.value):
         violations.append({'clause': 'count-vs-listing', 'mech': 'count-vs-listing',
                            'detail': '%s: count=%r, listed distinct pairs=%d' % (label, cnt.value, len(set(L)))})
@@ -275,8 +287,12 @@ def gf_count(truth, admitted, kw):
 def run_large(spec, r, g):
   """20-45 geos: too many designs to list; count_max_designs() vs the exact generating-function count."""
   G = r.randrange(20, 46)
+  if spec['idx'] % 4 == 0:
+    G = r.choice([10, 11, 12, 15, 20, 22, 24, 30, 33, 36, 44])     # sizes where n*(1+tol)/(2+tol) is (nearly) integral
   weights = r.choice([[('ctx', 10), ('cx', 1), ('tx', 1)], [('ctx', 3), ('cx', 3), ('tx', 2), ('ct', 1), ('c_fixed', 1), ('t_fixed', 1)],
                       [('cx', 8), ('ctx', 2), ('tx', 1)], [('ctx', 1)]])
+  if spec['idx'] % 4 == 0:
+    weights = [('ctx', 1)]
   classes = [gen.weighted(r, weights) for _ in range(G)]
   case = make_case(r, g, classes)
   truth = sl.Truth(case)
@@ -292,7 +308,9 @@ def run_large(spec, r, g):
       lo_ = r.randrange(1, G // 2)
       kw['control_geos_range'] = (lo_, lo_ + r.randrange(0, G))
     if r.random() < 0.5:
-      kw['geo_ratio_tolerance'] = r.choice([0.5, 1.0, 2.0, 0.1, 0.25])
+      kw['geo_ratio_tolerance'] = r.choice([0.5, 1.0, 2.0, 0.1, 0.25, 0.2, 0.4, 0.2, 0.4])
+    if spec['idx'] % 4 == 0 and j == 0:
+      kw = {'n_test': 3, 'iroas': 1.0, 'geo_ratio_tolerance': r.choice([0.2, 0.4, 0.5, 1.0])}
     built = util.call(sl.build, case, None, kw)
     if not built.ok:
       counters['build_rejected'] += 1
